@@ -183,6 +183,13 @@ let () =
                    incr l2checks;
                    if lookup k !l2 <> List.mem_assoc k !s1.keys1 then begin incr l2diffs; bad := true;
                      emit (Printf.sprintf "MISMATCH\t%s\t%d\tl2-lookup %s\timpl=L1-table\tl2=search differs" !seq !idx (enc_bytes k)) end
+               | OSnapIter (rv, lo, hi) ->
+                   (* the model of the batched snapshot iterator (Batched.v) on the reference model's snapshot *)
+                   incr l2checks;
+                   let snap = snapshot0 !s0 in
+                   let r = show_out (RKVs (batched (S (nat_i (List.length snap))) snap rv lo hi)) in
+                   if r <> impl then begin incr l2diffs; bad := true;
+                     emit (Printf.sprintf "MISMATCH\t%s\t%d\tbatched-model %s\timpl=%s\tl2=%s" !seq !idx (String.concat " " opf) impl r) end
                | OIter (_, lo, _) when lo <> [] && !l2 <> None ->
                    incr l2checks;
                    let want = (try Some (List.find (fun k -> lex_cmp lo k <> Gt) (List.map fst !s1.keys1)) with Not_found -> None) in
